@@ -54,12 +54,18 @@ mod verif_kani_resp_codec {
         None
     }
 
+    // the alphabet is ASCII, so UTF-8 validation always succeeds: skip its loop
+    fn from_utf8_ascii_stub(v: &[u8]) -> Result<&str, core::str::Utf8Error> {
+        Ok(unsafe { core::str::from_utf8_unchecked(v) })
+    }
+
     // @harness: h_codec_total_n4
     // @bound: probe
     // @tier: quick
     // @complete: false
     #[kani::proof]
     #[kani::unwind(6)]
+    #[kani::stub(core::str::from_utf8, from_utf8_ascii_stub)]
     #[kani::stub(dep_memchr, memchr_stub)]
     #[kani::stub(alloc::fmt::format, fmt_format_stub)]
     #[kani::stub(core::fmt::write, fmt_write_stub)]
